@@ -706,3 +706,48 @@ sub_accept!(c17_sub_lpc1_b16_n3_p3_r1, 16, 3, 14, 7, [(0, 0), (1, 32), (2, 0), (
 // @bound FIXED order 2, 32 bps (full-scale warm-up), block 4, method 1, partition order 0, Rice parameter 30 (5-bit parameters): extreme residuals
 sub_accept!(c17_sub_fixed2_b32_n4_r30, 32, 4, 14, 7, [(0, 0), (1, 10), (2, 0), (5, 1), (6, 0), (7, 30)]);
 
+
+// ===========================================================================
+// C05: every frame header is checked against STREAMINFO
+// ===========================================================================
+
+// @harness prop=C05,C03 tier=quick expect=pass timeout=900
+// @units stream::FrameHeader::from_reader(Streaminfo) stream::FrameHeader::parse
+// @bound any header field values (1-byte coded number pinned; all block-size, sample-rate, channel and depth codes incl. uncommon and STREAMINFO-referenced ones); STREAMINFO with arbitrary maximum block size, 20-bit rate, 1..=8 channels, depth 1..=32
+// @oracle Ok(h) => h.block_size <= maximum block size, h.sample_rate == STREAMINFO rate, channel count == STREAMINFO channels, depth == STREAMINFO depth (anything else must be one of the documented errors)
+#[kani::proof]
+#[kani::unwind(6)]
+fn c05_header_streaminfo_consistency() {
+    let mut vals: [u64; 12] = kani::any();
+    vals[0] = 0b111_1111_1111_1100; // sync
+    vals[7] = 0; // 1-byte coded number
+    let rate: u32 = kani::any();
+    kani::assume(rate < (1 << 20));
+    let channels: u8 = kani::any();
+    kani::assume(channels >= 1 && channels <= 8);
+    let depth: u32 = kani::any();
+    kani::assume(depth >= 1 && depth <= 32);
+    let si = crate::metadata::Streaminfo {
+        minimum_block_size: 16,
+        maximum_block_size: kani::any(),
+        minimum_frame_size: None,
+        maximum_frame_size: None,
+        sample_rate: rate,
+        channels: std::num::NonZero::new(channels).unwrap(),
+        bits_per_sample: SignedBitCount::<32>::try_from(depth).unwrap(),
+        total_samples: None,
+        md5: None,
+    };
+    let mut r = ModelBits::new(Script::new(&vals), 15);
+    let h: Result<FrameHeader, Error> = r.parse_with(&si);
+    if let Ok(h) = &h {
+        assert!(u16::from(h.block_size) <= si.maximum_block_size);
+        assert!(u32::from(h.sample_rate) == rate);
+        assert!(h.channel_assignment.count() == channels);
+        assert!(u32::from(h.bits_per_sample) == depth);
+    }
+    kani::cover!(h.is_ok());
+    kani::cover!(matches!(h, Err(Error::ChannelsMismatch)));
+    kani::cover!(matches!(h, Err(Error::BlockSizeMismatch)));
+    std::mem::forget(h);
+}
